@@ -125,7 +125,7 @@ func (r *StmtRes) Outcome() string {
 
 // maxPolls bounds one drain: stores hold at most a few hundred pairs, so a
 // drain that has not reached end-of-stream after this many polls will not.
-const maxPolls = 3000
+const maxPolls = 600
 
 func panicText(p any) string {
 	s := fmt.Sprint(p)
